@@ -99,7 +99,7 @@ func (sm3 *SM3) checkSum(out []byte) {
 	sm3.nx++
 
 	var empty [BlockSize]byte
-	if sm3.nx >= maxTail {
+	if sm3.nx > maxTail {
 		sm3.Write(empty[:BlockSize+maxTail-sm3.nx])
 	} else {
 		sm3.Write(empty[sm3.nx:maxTail])
